@@ -8,6 +8,11 @@
   any size.  Weights are `Int`s: `int` weights as they are, `bool` as 0/1, `float` weights (dyadic rationals) scaled by
   the common power-of-two denominator `inp.unit` — comparisons and sums are invariant under that scaling and the only
   constant in the code, the `+ 1` of the sentinel, is scaled along (`+ inp.unit`).
+
+  The validity / optimality theorems are stated for the value the function RETURNS (`… = .ok res`); that it returns is
+  `minWeight_ok_on_domain` (section "totality"): weights ≥ 0 of one Python type, `int` weights and sentinel < 2^63.
+  Outside that domain: `error_domain` lists the raising branches; float tables reaching 2^53 (model ≠ code: the
+  sentinel's `+ 1` is absorbed in float64) and int tables reaching 2^63 are not claimed.
 -/
 import GtModel.Proofs.Assign
 
@@ -311,6 +316,260 @@ theorem filter_removes_exactly_missing {solve : Dense → Ans} {inp : Input} {p 
         simp [this]
       · simp [hh]
 
+/-! ## totality: where the function returns and where it raises
+
+  `minWeightBipartiteMatching` has exactly three raising branches before the solver call (`prepare`) and none after
+  it; the solver is a total function here (that scipy itself returns on the matrix shown is part of the contract).
+  * `minWeight_ok_on_domain` : on the ADMITTED DOMAIN — weights ≥ 0, one Python type, `unit ≥ 1`, and for `int`
+    tables every weight (and, when a pair is missing, the sentinel `max column sum + 1`) below 2^63 — it returns.
+  * `error_domain` : the three raising branches, each with the condition on the table under which it is taken;
+    the examples below show each is taken (the audit's boundary tables `[[-1, 2^63]]`, `[[2^64-1, None]]`).
+  OUTSIDE the domain, and outside what the model is claimed for:
+    - `int` tables with a weight or sentinel ≥ 2^63 (numpy `OverflowError` unless everything is ≥ 0 and < 2^64) or a
+      negative weight next to a missing pair (`AssertionError` possible);
+    - `float` tables whose weights or column sums reach 2^53 (scaled: `2^53 * unit`): the model's arithmetic is exact,
+      Python's is not — `[[2.0**53, None]]` raises `AssertionError` in the real code because the sentinel's `+ 1` is
+      absorbed, while the model returns.  The correspondence (and every theorem read as a statement about the code)
+      is claimed for float tables only below that bound. -/
+
+/-- all existing pairs carry one Python type (`int`, `bool` or `float`) -/
+def SingleType (inp : Input) : Prop := ∀ c ∈ present inp, ∀ e ∈ present inp, e.ty = c.ty
+
+/-- every weight is below `B`, and so is the sentinel `column sum + 1` of every column when a pair is missing -/
+def Below (inp : Input) (B : Int) : Prop :=
+  (∀ i j c, i < inp.n → j < inp.m → inp.cell i j = some c → c.w < B) ∧
+  (hasNull inp = true → ∀ j, j < inp.m → colSum inp j + (inp.unit : Int) < B)
+
+theorem foldl_max_mem (l : List Int) (x : Int) :
+    l.foldl (fun a b => if a < b then b else a) x = x ∨ l.foldl (fun a b => if a < b then b else a) x ∈ l := by
+  induction l generalizing x with
+  | nil => simp
+  | cons z zs ih =>
+    simp only [List.foldl_cons, List.mem_cons]
+    split
+    · rcases ih z with h | h
+      · right; left; exact h
+      · right; right; exact h
+    · rcases ih x with h | h
+      · left; exact h
+      · right; right; exact h
+
+theorem maxOfList_mem {l : List Int} {s : Int} (h : maxOfList l = some s) : s ∈ l := by
+  cases l with
+  | nil => simp [maxOfList] at h
+  | cons x xs =>
+    simp only [maxOfList, Option.some.injEq] at h
+    subst h
+    rcases foldl_max_mem xs x with h | h
+    · rw [h]; exact List.mem_cons_self
+    · exact List.mem_cons_of_mem _ h
+
+theorem minEdge_ge {c : Cell} {rest : List Cell} {B : Int} (hc : B ≤ c.w) (hr : ∀ e ∈ rest, B ≤ e.w) :
+    B ≤ minEdge c rest := by
+  unfold minEdge
+  generalize c.w = x at hc
+  induction rest generalizing x with
+  | nil => simpa
+  | cons e es ih =>
+    simp only [List.foldl_cons]
+    apply ih
+    · intro e' he'; exact hr e' (List.mem_cons_of_mem _ he')
+    · split
+      · exact hr e (List.mem_cons_self)
+      · exact hc
+
+/-- any range inside int64 is served by a row of the table (the last row at the latest) -/
+theorem getDtype_some_of_int64 {lo hi : Int} (h1 : -(2 ^ 63) ≤ lo) (h2 : hi < 2 ^ 63) : ∃ d, getDtype lo hi = some d := by
+  have : (getDtype lo hi).isSome = true := by
+    unfold getDtype
+    rw [List.find?_isSome]
+    refine ⟨⟨-9223372036854775808, 9223372036854775808, "int64", -9223372036854775808, 9223372036854775807⟩,
+      by decide, ?_⟩
+    simp only [Bool.and_eq_true, decide_eq_true_eq]
+    omega
+  exact Option.isSome_iff_exists.1 this
+
+theorem nullValue_lt {inp : Input} {B nv : Int} (h : nullValue inp = some nv)
+    (hb : ∀ j, j < inp.m → colSum inp j + (inp.unit : Int) < B) : nv < B := by
+  unfold nullValue at h
+  cases hm : maxOfList ((List.range inp.m).map (colSum inp)) with
+  | none => simp [hm] at h
+  | some s =>
+    simp only [hm, Option.map_some, Option.some.injEq] at h
+    subst h
+    have := maxOfList_mem hm
+    simp only [List.mem_map, List.mem_range] at this
+    obtain ⟨j, hj, rfl⟩ := this
+    exact hb j hj
+
+/-- the part before the solver call does not raise on the admitted domain -/
+theorem prepare_ok_on_domain {inp : Input} (hn : NonNeg inp) (hu : 1 ≤ inp.unit) (ht : SingleType inp)
+    (hb : ∀ c ∈ present inp, c.ty = .int → Below inp (2 ^ 63)) : ∃ p, prepare inp = .ok p := by
+  unfold prepare
+  split
+  · exact ⟨none, rfl⟩
+  · rename_i c rest hpres
+    have hcm : c ∈ present inp := by rw [hpres]; exact List.mem_cons_self
+    have hall : (rest.all fun e => decide (e.ty = c.ty)) = true := by
+      rw [List.all_eq_true]
+      intro e he
+      simpa using ht c hcm e (by rw [hpres]; exact List.mem_cons_of_mem _ he)
+    simp only [hall, Bool.not_true, Bool.false_eq_true, if_false]
+    obtain ⟨i0, j0, hi0, hj0, hc0⟩ := mem_present.1 hcm
+    obtain ⟨nv, hnv⟩ := nullValue_isSome (inp := inp) (by omega)
+    have hdom := (null_value_dominates hn hu hnv).2.2 c rest hpres
+    -- the sentinel step
+    have hns : ∃ null mx', nullStep inp (maxEdge c rest) = .ok (null, mx') ∧
+        (hasNull inp = true → mx' = nv) ∧ (hasNull inp = false → mx' = maxEdge c rest) := by
+      unfold nullStep
+      by_cases hh : hasNull inp = true
+      · simp only [hh, if_true, hnv]
+        have : nv > maxEdge c rest := hdom
+        simp only [this, if_true]
+        exact ⟨nv, nv, rfl, fun _ => rfl, fun h => by simp at h⟩
+      · have hh' : hasNull inp = false := by simpa using hh
+        simp only [hh', Bool.false_eq_true, if_false]
+        exact ⟨0, _, rfl, fun h => by simp at h, fun _ => rfl⟩
+    obtain ⟨null, mx', hns, hmx1, hmx2⟩ := hns
+    simp only [hns]
+    -- the conversion
+    have hcv : ∃ p, convert inp c.ty null (minEdge c rest) mx' = .ok p := by
+      unfold convert
+      cases hty : c.ty with
+      | bool => exact ⟨_, rfl⟩
+      | float => exact ⟨_, rfl⟩
+      | int =>
+        have hB := hb c hcm hty
+        have hmn : (0 : Int) ≤ minEdge c rest := by
+          apply minEdge_ge (hn _ _ _ hc0)
+          intro e he
+          obtain ⟨i, j, _, _, hc⟩ := mem_present.1 (by rw [hpres]; exact List.mem_cons_of_mem _ he : e ∈ present inp)
+          exact hn _ _ _ hc
+        have hmx : mx' < 2 ^ 63 := by
+          by_cases hh : hasNull inp = true
+          · rw [hmx1 hh]; exact nullValue_lt hnv (hB.2 hh)
+          · have hh' : hasNull inp = false := by simpa using hh
+            rw [hmx2 hh']
+            apply maxEdge_lt (hB.1 _ _ _ hi0 hj0 hc0)
+            intro e he
+            obtain ⟨i, j, hi, hj, hc⟩ := mem_present.1 (by rw [hpres]; exact List.mem_cons_of_mem _ he : e ∈ present inp)
+            exact hB.1 _ _ _ hi hj hc
+        obtain ⟨d, hd⟩ := getDtype_some_of_int64 (lo := minEdge c rest) (hi := mx') (by omega) hmx
+        have hrow : getDtypeRow (minEdge c rest) mx' = d := by simp [getDtypeRow, hd]
+        simp only [hrow, no_overflow_from_table hd, if_true]
+        exact ⟨_, rfl⟩
+    obtain ⟨p, hp⟩ := hcv
+    simp only [hp]
+    exact ⟨some p, rfl⟩
+
+/-- C15 totality: on the admitted domain — non-negative weights of ONE Python type, `unit ≥ 1`, and for `int` tables
+    every weight and (with a missing pair) every `column sum + 1` below 2^63 — `min_weight_bipartite_matching` RETURNS,
+    whatever the solver answers; with `result_is_injection`, `only_existing_pairs`, `reports_true_weights`,
+    `pairs_min_n_m`, `total_is_minimum` (whose hypothesis `… = .ok res` is thereby discharged) the returned pairing is
+    valid and optimal. -/
+theorem minWeight_ok_on_domain (solve : Dense → Ans) {inp : Input} (hn : NonNeg inp) (hu : 1 ≤ inp.unit)
+    (ht : SingleType inp) (hb : ∀ c ∈ present inp, c.ty = .int → Below inp (2 ^ 63)) :
+    ∃ res, minWeightBipartiteMatching solve inp = .ok res := by
+  obtain ⟨p, hp⟩ := prepare_ok_on_domain hn hu ht hb
+  unfold minWeightBipartiteMatching
+  rw [hp]
+  cases p with
+  | none => exact ⟨[], rfl⟩
+  | some p => exact ⟨_, rfl⟩
+
+/-- … and the conclusions of the validity theorems hold for what it returns (one statement, no `= .ok` hypothesis) -/
+theorem minWeight_valid_on_domain (solve : Dense → Ans) {inp : Input} (hn : NonNeg inp) (hu : 1 ≤ inp.unit)
+    (ht : SingleType inp) (hb : ∀ c ∈ present inp, c.ty = .int → Below inp (2 ^ 63))
+    (hs : SolverValidOn solve inp) :
+    ∃ res, minWeightBipartiteMatching solve inp = .ok res ∧
+      (res.map (·.f)).Nodup ∧ (res.map (·.t)).Nodup ∧
+      (∀ q ∈ res, q.f < inp.n ∧ q.t < inp.m ∧ inp.cell q.f q.t = some ⟨q.ty, q.w⟩) ∧
+      (hasNull inp = false → res.length = min inp.n inp.m) := by
+  obtain ⟨res, h⟩ := minWeight_ok_on_domain solve hn hu ht hb
+  refine ⟨res, h, (result_is_injection hs h).1, (result_is_injection hs h).2, ?_, fun hc => pairs_min_n_m hs hc h⟩
+  intro q hq
+  exact ⟨(only_existing_pairs hs h q hq).1, (only_existing_pairs hs h q hq).2.1, reports_true_weights h q hq⟩
+
+/-- the domain on which it RAISES: the three error branches of the model, each with its cause
+    (`ValueError`: two existing pairs of different Python types; `AssertionError`: a missing pair and the sentinel
+    `max column sum + 1` not above the largest weight — needs a negative weight; `OverflowError`: an `int` table whose
+    range [least weight, largest weight or sentinel] does not fit int64) -/
+theorem error_domain {solve : Dense → Ans} {inp : Input} {e : Err} (h : minWeightBipartiteMatching solve inp = .error e) :
+    (e = .valueError ∧ ¬ SingleType inp) ∨
+    (e = .assertionError ∧ hasNull inp = true ∧
+      ∃ c rest nv, present inp = c :: rest ∧ nullValue inp = some nv ∧ nv ≤ maxEdge c rest) ∨
+    (e = .overflowError ∧ ∃ c rest mx, present inp = c :: rest ∧ c.ty = .int ∧
+      (hasNull inp = true → nullValue inp = some mx) ∧ (hasNull inp = false → mx = maxEdge c rest) ∧
+      ¬ (-(2 ^ 63) ≤ minEdge c rest ∧ mx < 2 ^ 63)) := by
+  have hp : prepare inp = .error e := by
+    unfold minWeightBipartiteMatching at h
+    split at h
+    · rename_i e' he; simp only [Except.error.injEq] at h; subst h; exact he
+    · cases h
+    · cases h
+  clear h
+  unfold prepare at hp
+  split at hp
+  · cases hp
+  · rename_i c rest hpres
+    have hcm : c ∈ present inp := by rw [hpres]; exact List.mem_cons_self
+    split at hp
+    · rename_i hall
+      simp only [Except.error.injEq] at hp
+      subst hp
+      left
+      refine ⟨rfl, fun ht => ?_⟩
+      have : (rest.all fun e => decide (e.ty = c.ty)) = true := by
+        rw [List.all_eq_true]
+        intro e he
+        simpa using ht c hcm e (by rw [hpres]; exact List.mem_cons_of_mem _ he)
+      simp [this] at hall
+    · obtain ⟨i0, j0, hi0, hj0, hc0⟩ := mem_present.1 hcm
+      obtain ⟨nv, hnv⟩ := nullValue_isSome (inp := inp) (by omega)
+      split at hp
+      · rename_i e' hns
+        simp only [Except.error.injEq] at hp
+        subst hp
+        unfold nullStep at hns
+        by_cases hh : hasNull inp = true
+        · simp only [hh, if_true, hnv] at hns
+          split at hns
+          · cases hns
+          · rename_i hle
+            simp only [Except.error.injEq] at hns
+            subst hns
+            right; left
+            exact ⟨rfl, hh, c, rest, nv, hpres, hnv, by omega⟩
+        · have hh' : hasNull inp = false := by simpa using hh
+          simp [hh'] at hns
+      · rename_i null mx' hns
+        have hs := nullStep_ok hns
+        split at hp
+        · rename_i e' hcv
+          simp only [Except.error.injEq] at hp
+          subst hp
+          unfold convert at hcv
+          split at hcv
+          · cases hcv
+          · cases hcv
+          · rename_i hty
+            dsimp only at hcv
+            split at hcv
+            · cases hcv
+            · rename_i hfit
+              simp only [Except.error.injEq] at hcv
+              subst hcv
+              right; right
+              refine ⟨rfl, c, rest, mx', hpres, hty, ?_, ?_, ?_⟩
+              · intro hh; rw [(hs.1 hh).2.2]; exact (hs.1 hh).1
+              · intro hh; exact hs.2 hh
+              · rintro ⟨h1, h2⟩
+                obtain ⟨d, hd⟩ := getDtype_some_of_int64 h1 h2
+                have hrow : getDtypeRow (minEdge c rest) mx' = d := by simp [getDtypeRow, hd]
+                rw [hrow, no_overflow_from_table hd] at hfit
+                exact hfit rfl
+        · cases hp
+
 /-! ## non-vacuity: concrete inputs satisfying the hypotheses of the theorems above -/
 
 section Examples
@@ -397,6 +656,47 @@ example : (prepare ⟨1, 1, 1, cellOfRows [[none]]⟩).toOption = some none := b
 /-- documented-but-dead check: a sparse `bool` table is NOT rejected; the sentinel (2) is shown as `True` (1) -/
 example : ∃ p, prepare ⟨1, 2, 1, cellOfRows [[none, B 1]]⟩ = .ok (some p) ∧ p.null = 2 ∧ p.shown 0 0 = 1 ∧ p.shown 0 1 = 1 :=
   ⟨_, rfl, rfl, rfl, rfl⟩
+
+/-! ### totality: the admitted domain is inhabited, and every raising branch is taken outside it -/
+
+/-- all hypotheses of `minWeight_ok_on_domain` on the sparse `int` table [[5, None], [1, 2]] -/
+theorem exSparse_domain : NonNeg exSparse ∧ 1 ≤ exSparse.unit ∧ SingleType exSparse ∧
+    (∀ c ∈ present exSparse, c.ty = .int → Below exSparse (2 ^ 63)) := by
+  have key : ∀ r ∈ [[I 5, none], [I 1, I 2]], ∀ oc ∈ r,
+      (oc.all fun c => decide (0 ≤ c.w) && decide (c.w < 2 ^ 63)) = true := by decide
+  have hw : ∀ i j c, exSparse.cell i j = some c → 0 ≤ c.w ∧ c.w < 2 ^ 63 := by
+    intro i j c h
+    obtain ⟨r, hr, hc⟩ := cellOfRows_mem h
+    simpa using key r hr _ hc
+  refine ⟨fun i j c h => (hw i j c h).1, by decide, by unfold SingleType; decide, fun _ _ _ => ⟨?_, ?_⟩⟩
+  · intro i j c _ _ h; exact (hw i j c h).2
+  · intro _ j hj
+    have : j = 0 ∨ j = 1 := by have : j < 2 := hj; omega
+    rcases this with rfl | rfl <;> decide
+
+/-- `minWeight_ok_on_domain` applied: it returns for EVERY solver answer, adversarial ones included -/
+example (solve : Dense → Ans) : ∃ res, minWeightBipartiteMatching solve exSparse = .ok res :=
+  minWeight_ok_on_domain solve exSparse_domain.1 exSparse_domain.2.1 exSparse_domain.2.2.1 exSparse_domain.2.2.2
+
+/-- the largest admitted `int` weights: `[[2^63 - 2, None]]` (sentinel 2^63 - 1) still returns … -/
+example : (prepare ⟨1, 2, 1, cellOfRows [[I 9223372036854775806, none]]⟩).toOption.isSome = true := by rfl
+/-- … the audit's boundary tables do not: `[[-1, 2^63]]` and `[[2^64 - 1, None]]` (sentinel 2^64) raise OverflowError,
+    as the real code does (`error_domain`, third branch) -/
+example : prepare ⟨1, 2, 1, cellOfRows [[I (-1), I 9223372036854775808]]⟩ = .error .overflowError := by rfl
+example : prepare ⟨1, 2, 1, cellOfRows [[I 18446744073709551615, none]]⟩ = .error .overflowError := by rfl
+/-- between 2^63 and 2^64 non-negative tables are served by the uint64 row (returns; outside the ADMITTED domain only
+    because the bound is stated as 2^63) -/
+example : (prepare ⟨1, 2, 1, cellOfRows [[I 9223372036854775808, I 3]]⟩).toOption.isSome = true := by rfl
+/-- MODEL ≠ CODE outside the domain: the float table `[[2.0**53, None]]` (unit 1) returns in the model (exact
+    arithmetic: sentinel 2^53 + 1) while the real code raises AssertionError (2^53 + 1 == 2^53 in float64).  Float
+    tables are claimed only while weights and column sums stay below 2^53. -/
+example : (prepare ⟨1, 2, 1, cellOfRows [[F 9007199254740992, none]]⟩).toOption.isSome = true := by rfl
+/-- `error_domain` is not vacuous: each of its three branches is taken (ValueError / AssertionError / OverflowError) -/
+example : minWeightBipartiteMatching exSparseSolve ⟨1, 2, 1, cellOfRows [[I 1, B 1]]⟩ = .error .valueError := by rfl
+example : minWeightBipartiteMatching exSparseSolve ⟨2, 2, 1, cellOfRows [[I (-1), none], [I 3, I 0]]⟩
+    = .error .assertionError := by rfl
+example : minWeightBipartiteMatching exSparseSolve ⟨1, 1, 1, cellOfRows [[I 18446744073709551616]]⟩
+    = .error .overflowError := by rfl
 
 -- [audit] non-vacuity: the STRUCTURAL half of the solver contract (`Ans.Valid`) is satisfiable for every shape
 -- (identity assignment on the first `min n m` indices).  That a MINIMISER exists for every matrix (i.e. that
